@@ -357,3 +357,111 @@ Print Assumptions C12_generated_run_rejects.
 Print Assumptions C12_generated_call_rejects.
 Print Assumptions C12_generated_check_x_accepts.
 Print Assumptions C12_generated_check_y_rejects.
+
+(* ================================================================================================================ *)
+(* Tie (T), second unit: register_teacher, _check_node_io and check_xy (_base.py) as translated on this run from their current source
+   text (coq/gen/Gen_validation2.v, translator tools/vlib/py2coq_val2.py, over the node-object vocabulary of base/ValPrelude2.v: nodes as
+   records -- name, input_dim / output_dim, is_trained_online, fitted, the _teacher slot --, a caller that is a Node or a Model, data
+   that is None | a descriptor | a dict keyed by node names, and the ONE mutation  caller._teacher = ..  as an explicit change of a
+   heap of node objects that every outcome, exceptions included, returns).
+   For a NODE caller the translated check_xy IS Shapes.check_xy, the function every theorem on `step` above goes through: same
+   refusals (same exception class, heap untouched), same checked descriptors, and a teacher node given as target is registered exactly
+   when the model answers YTeacher (then y_new is None).  `pn_of name fitted slot n` is the Python node object of the model node n,
+   for ANY name, `fitted` flag and content of the teacher slot.
+   The MODEL-caller branch of _check_node_io (receiver_nodes, mappings, the `fitted` exemption) has no counterpart in Shapes.v: for it,
+   only statements about the generated code itself are made (the frame lemma of register_teacher, and the executed refusal below). *)
+From RV Require Import base.ValPrelude2 gen.Gen_validation2 proofs.Gen_validation2_eq.
+
+Theorem C12_generated_check_xy_node (n : node) (name : nat) (fitted : bool) (slot : option data) (x : data) (y : option data)
+        (ans ani ats : bool) (h : heap) :
+  Gen_validation2.check_xy (CNode (pn_of name fitted slot n)) (VData x) (opt_val y) PNone PNone ans ani ats h
+  = spec_xy (pn_of name fitted slot n) (Shapes.check_xy n x y ans ani ats) h.
+Proof. exact (gen_check_xy_node n name fitted slot x y ans ani ats h). Qed.
+
+(* a call the translated check_xy refuses leaves NO teacher registered (the heap is the one it was given), and is a refusal of the model *)
+Theorem C12_generated_check_xy_refusal_frame (n : node) (name : nat) (fitted : bool) (slot : option data) (x : data) (y : option data)
+        (ans ani ats : bool) (h h' : heap) (e : exn) :
+  Gen_validation2.check_xy (CNode (pn_of name fitted slot n)) (VData x) (opt_val y) PNone PNone ans ani ats h = (h', RErr e) ->
+  h' = h /\ Shapes.check_xy n x y ans ani ats = RErr e.
+Proof. exact (gen_check_xy_node_refusal_frame n name fitted slot x y ans ani ats h h' e). Qed.
+
+(* ... and Node.train refuses it in the checking phase with the node literally unchanged (flags of Node.train: no list, one input) *)
+Theorem C12_generated_check_xy_train_rejects (n : node) (name : nat) (fitted : bool) (slot : option data) (x : data) (y : option data)
+        (h h' : heap) (e : exn) : supported (nkind n) (OTrain x y) = true ->
+  Gen_validation2.check_xy (CNode (pn_of name fitted slot n)) (VData x) (opt_val y) PNone PNone false false true h = (h', RErr e) ->
+  h' = h /\ step n (OTrain x y) = Err PCheck e n.
+Proof. exact (gen_check_xy_train_rejects n name fitted slot x y h h' e). Qed.
+
+(* the translated register_teacher, for ANY caller (Node or Model), teacher object and expected dimension: a refusal changes nothing *)
+Theorem C12_generated_register_teacher_frame (c : pycaller) (t : data) (ed : pyobj) (h h' : heap) (e : exn) :
+  Gen_validation2.register_teacher c t ed h = (h', RErr e) -> h' = h.
+Proof. exact (gen_register_teacher_refusal_frame c t ed h h' e). Qed.
+
+(* MODEL caller, executed on the generated code: two online readouts (names 1, 2; output_dim 1), the target mapping gives the first an
+   initialised teacher node and the second a 3-wide array -- the call is refused with ValueError AFTER the teacher was registered on
+   the first readout, and check_xy does not undo it: the frame property above does NOT extend to Model callers (the caller, Model.train,
+   unregisters in an `except` since 3f98ca9; finding late-rejection:teacher-stays-registered:model) *)
+Theorem C12_generated_check_xy_model_refusal_keeps_teacher_refuted :
+  exists (c : pycaller) (x y : pyval) (h h' : heap) (e : exn),
+    Gen_validation2.check_xy c x y PNone PNone false false true h = (h', RErr e) /\ h' <> h.
+Proof.
+  exists (CModel ex_model), (VData (DArr true [12; 3])), (VMap [(1, DTeacher (Some 1)); (2, DArr true [12; 3])]), [ex_a; ex_b].
+  eexists. exists ValueError. split; [exact gen_check_xy_model_refusal_keeps_teacher | discriminate].
+Qed.
+
+(* non-vacuity: the translated code, executed for an online readout (name 7, input 3, output 2) -- a teacher node of the right width is
+   registered and y_new is None; one of the wrong width is refused with nothing registered; an offline node refuses any teacher; a node as
+   INPUT is refused; plain data is checked against input_dim / output_dim *)
+Example C12_generated_check_xy_example :
+  let on := mkPyNode 7 (PInt 3) (PInt 2) true false None in
+  let off := mkPyNode 8 (PInt 3) (PInt 2) false false None in
+  Gen_validation2.check_xy (CNode on) (VData (DArr true [5; 3])) (VData (DTeacher (Some 2))) PNone PNone false false true [on]
+    = ([with_teacher on (Some (DTeacher (Some 2)))], ROk (VData (DArr true [5; 3]), VNone)) /\
+  Gen_validation2.check_xy (CNode on) (VData (DArr true [5; 3])) (VData (DTeacher (Some 4))) PNone PNone false false true [on]
+    = ([on], RErr ValueError) /\
+  Gen_validation2.check_xy (CNode off) (VData (DArr true [5; 3])) (VData (DTeacher (Some 2))) PNone PNone true false true [off]
+    = ([off], RErr TypeError) /\
+  Gen_validation2.check_xy (CNode on) (VData (DTeacher (Some 3))) VNone PNone PNone false true true [on] = ([on], RErr TypeError) /\
+  Gen_validation2.check_xy (CNode on) (VData (DArr true [5; 3])) (VData (DArr true [5; 3])) PNone PNone false false true [on]
+    = ([on], RErr ValueError) /\
+  Gen_validation2.check_xy (CNode on) (VData (DArr true [5; 3])) (VData (DArr true [5; 2])) PNone PNone false false true [on]
+    = ([on], ROk (VData (DArr true [5; 3]), VData (DArr true [5; 2]))).
+Proof. vm_compute. repeat split. Qed.
+
+Print Assumptions C12_generated_check_xy_node.
+Print Assumptions C12_generated_check_xy_refusal_frame.
+Print Assumptions C12_generated_check_xy_train_rejects.
+Print Assumptions C12_generated_register_teacher_frame.
+Print Assumptions C12_generated_check_xy_model_refusal_keeps_teacher_refuted.
+
+(* _check_node_io with io_type = "input" as translated, for ANY caller (Node or Model), data (descriptor, dict, None), receiver nodes and
+   flags, accepted or refused: the heap of node objects is returned as given -- checking INPUTS never registers a teacher *)
+Theorem C12_generated_check_node_io_input_frame (x : pyval) (rn : option (list pynode)) (ed : pyobj) (c : pycaller)
+        (ans ani ats : bool) (h : heap) :
+  fst (Gen_validation2.check_node_io x rn ed c IoInput ans ani ats h) = h.
+Proof. exact (gen_check_node_io_input_frame x rn ed c ans ani ats h). Qed.
+
+(* the Model-caller branch executed (no hand model of it in Shapes.v): input node ex_i0; online readouts ex_a, ex_b (output 1); offline
+   readouts ex_f (already fitted) and ex_g (not fitted), output 2; flags of Model.train *)
+Example C12_generated_check_xy_model_example :
+  (* ex_a: teacher registered, its entry popped; ex_b: array checked against OUTPUT_dim; ex_f: no target but fitted -- skipped *)
+  Gen_validation2.check_xy (ex_mdl [ex_a; ex_b; ex_f]) ex_X (VMap [(1, DTeacher (Some 1)); (2, DArr true [12; 1])]) PNone PNone false false true
+                           [ex_i0; ex_a; ex_b; ex_f]
+  = ([ex_i0; with_teacher ex_a (Some (DTeacher (Some 1))); ex_b; ex_f], ROk (VMap [(0, DArr true [12; 3])], VMap [(2, DArr true [12; 1])])) /\
+  (* ex_g: no target and not fitted -- ValueError *)
+  snd (Gen_validation2.check_xy (ex_mdl [ex_a; ex_b; ex_g]) ex_X (VMap [(1, DTeacher (Some 1)); (2, DArr true [12; 1])]) PNone PNone false false true
+                                [ex_i0; ex_a; ex_b; ex_g]) = RErr ValueError /\
+  (* a teacher node for an offline readout -- TypeError, nothing registered *)
+  Gen_validation2.check_xy (ex_mdl [ex_f]) ex_X (VMap [(3, DTeacher (Some 2))]) PNone PNone false false true [ex_i0; ex_f]
+  = ([ex_i0; ex_f], RErr TypeError) /\
+  (* every target is a teacher node -- y_new is None *)
+  Gen_validation2.check_xy (ex_mdl [ex_a]) ex_X (VMap [(1, DTeacher (Some 1))]) PNone PNone false false true [ex_i0; ex_a]
+  = ([ex_i0; with_teacher ex_a (Some (DTeacher (Some 1)))], ROk (VMap [(0, DArr true [12; 3])], VNone)) /\
+  (* an INPUT mapping without the input node -- ValueError, fitted or not *)
+  snd (Gen_validation2.check_xy (ex_mdl [ex_f]) (VMap [(9, DArr true [12; 3])]) VNone PNone PNone false false true [ex_i0; ex_f]) = RErr ValueError /\
+  (* a target that is not a mapping is given to every trainable node *)
+  snd (Gen_validation2.check_xy (ex_mdl [ex_a; ex_b]) ex_X (VData (DArr true [12; 1])) PNone PNone false false true [ex_i0; ex_a; ex_b])
+  = ROk (VMap [(0, DArr true [12; 3])], VMap [(1, DArr true [12; 1]); (2, DArr true [12; 1])]).
+Proof. exact gen_check_xy_model_examples. Qed.
+
+Print Assumptions C12_generated_check_node_io_input_frame.
